@@ -338,16 +338,16 @@ static void run_vector(int base,const int *v,long vc){
    }
 }
 static int dims3_ok(int dim){ /* dimensions taking part in 3-deviation vectors ("rarely interacting" ones are left to <=2) */
-   return !(dim==D_NOINV||dim==D_NOPRED||dim==D_LSB||dim==D_EXPERT||dim==D_SIGNAL);
+   return !(dim==D_NOINV||dim==D_NOPRED||dim==D_EXPERT);
 }
 static int val3_ok(const single *s){ /* reduced value alphabets inside 3-deviation vectors */
    switch(s->dim){
-   case D_BITRATE: return s->val==500||s->val==6000||s->val==12000||s->val==24000||s->val==64000||s->val==OPUS_BITRATE_MAX;
+   case D_BITRATE: return s->val==500||s->val==6000||s->val==12000||s->val==16000||s->val==24000||s->val==32000||s->val==64000||s->val==OPUS_BITRATE_MAX;
    case D_CX: return s->val==0||s->val==5;
    case D_MAXBW: return s->val==OPUS_BANDWIDTH_NARROWBAND||s->val==OPUS_BANDWIDTH_WIDEBAND;
    case D_LOSS: return s->val==10||s->val==50;
-   case D_DUR: return s->val==0||s->val==2||s->val==4||s->val==5||s->val==7||s->val==8;
-   case D_MDB: return s->val==2||s->val==3||s->val==7||s->val==20||s->val==38||s->val==60||s->val==300;
+   case D_LSB: return s->val==8||s->val==16;
+   case D_MDB: return s->val==1||s->val==2||s->val==3||s->val==7||s->val==20||s->val==38||s->val==60||s->val==300||s->val==1276;
    default: return 1; }
 }
 static void grid_item(long it,void *ctx){
